@@ -316,7 +316,7 @@ func racePair(min, full []kop) string {
 	for _, w := range live {
 		for _, r := range full {
 			if isRead(r) && overlap(w, r) {
-				wr[wname(w)+"||read"] = true
+				wr[wname(w)] = true
 			}
 		}
 	}
@@ -326,7 +326,7 @@ func racePair(min, full []kop) string {
 			ks = append(ks, k)
 		}
 		sort.Strings(ks)
-		return strings.Join(ks, "+")
+		return strings.Join(ks, "+") + "||read"
 	}
 	return "no-overlap"
 }
